@@ -21,7 +21,8 @@ RULE = (
 	'signature halves and public key, S+L, S=0, the zero key; raw messages of boundary lengths; voting key trees; key vectors; object '
 	're-use histories (one KeyPair signing a sequence incl. repeats and the empty message, key pairs created in another order and '
 	'used alternately, one facade/key pair/account signing and cosigning several transactions incl. the NEM multisig path, one '
-	'Verifier judging good and bad signatures in turn), every step against the reference. '
+	'Verifier judging good and bad signatures in turn; one transaction object edited in place between uses; 1-4 cosigners and one '
+	'account over several hashes with ALL cosignatures kept and checked only after the last call), every step against the reference. '
 	'A case is distinct by its (operation, hex arguments) tuple; each is evaluated on the implementation, the oracle and the model.')
 TRUSTED_BASE = [
 	'Lean 4.33 kernel; axioms of the property theorems: subset of {propext, Classical.choice, Quot.sound}',
@@ -847,6 +848,66 @@ class Checker:
 					f'cosign {hx(secret)} {hx(expected_hash)} {1 if detached else 0}',
 					f'cosignature of one transaction object {note} is not over the hash of its current serialization')
 
+	def cosign_set(self, seed, buffer, secrets, hashes):
+		"""Several cosignatures obtained in one go and ALL kept: `secrets` cosign the aggregate `buffer` (attached and detached,
+		through the facade's cosign_transaction / cosign_transaction_hash and through account objects), and the first secret
+		cosigns each of `hashes`. Only after the last call of a group is every kept result compared with the reference for ITS
+		signer and hash; the results must be pairwise distinct objects, unchanged since they were returned, and - attached to the
+		aggregate - serialize to as many distinct entries."""
+		from symbolchain import sc
+		facade = self.impl.symbol(seed)
+		hash_class = self.impl.types[0]
+		transaction = facade.transaction_factory.deserialize(buffer)
+		own_hash = self.reference_hash('symbol', seed, buffer)
+		args = {'seed': seed, 'transaction': buffer, 'secrets': list(secrets), 'hashes': list(hashes)}
+		groups = []
+		for detached in (False, True):
+			groups.append((f'cosign_transaction:{int(detached)}', detached, [(secret, own_hash) for secret in secrets],
+				lambda secret, _hash, flag=detached: facade.cosign_transaction(self.impl.key_pair('symbol', secret), transaction, flag)))
+			groups.append((f'cosign_transaction_hash:{int(detached)}', detached, [(secret, own_hash) for secret in secrets],
+				lambda secret, value, flag=detached: facade.cosign_transaction_hash(self.impl.key_pair('symbol', secret), hash_class(value), flag)))
+			groups.append((f'account.cosign_transaction:{int(detached)}', detached, [(secret, own_hash) for secret in secrets],
+				lambda secret, _hash, flag=detached: facade.create_account(self.impl.types[1](secret)).cosign_transaction(transaction, flag)))
+			one = facade.create_account(self.impl.types[1](secrets[0]))
+			groups.append((f'one-account.cosign_transaction_hash:{int(detached)}', detached, [(secrets[0], value) for value in [own_hash] + list(hashes)],
+				lambda _secret, value, flag=detached, account=one: account.cosign_transaction_hash(hash_class(value), flag)))
+		for label, detached, jobs, call in groups:
+			results, snapshots = [], []
+			for secret, value in jobs:
+				result = call(secret, value)
+				results.append(result)
+				snapshots.append(result.serialize())
+			# everything below happens after the last call of the group
+			for index, ((secret, value), result, taken) in enumerate(zip(jobs, results, snapshots)):
+				required = bytes(8) + ref_public_key('symbol', secret) + ref_sign('symbol', secret, value) + (value if detached else b'')
+				note = f'{label}: cosignature #{index + 1} of {len(jobs)} kept until all were made'
+				self.add('cosign_set', dict(args, group=label, index=index), 'ok ' + hx(result.serialize()), 'ok ' + hx(required),
+					f'cosign {hx(secret)} {hx(value)} {1 if detached else 0}', f'{note} is not version 0 + its signer + the reference signature of its hash')
+				if result.serialize() != taken:
+					self.ctx.fail('property', f'{note} changed after it was returned', {
+						'op': 'cosign_set', 'args': dict(args, group=label, index=index), 'implementation': hx(result.serialize()), 'required': hx(taken)})
+				if 0 != result.version or result.signer_public_key.bytes != ref_public_key('symbol', secret):
+					self.ctx.fail('property', f'{note} has version {result.version} / signer {hx(result.signer_public_key.bytes)}', {
+						'op': 'cosign_set', 'args': dict(args, group=label, index=index)})
+				self.verify('symbol', result.signer_public_key.bytes, value, result.signature.bytes, 'accept', f'{note} does not verify for its hash under its signer', 'codec')
+				for other in range(index):
+					if results[other] is result:
+						self.ctx.fail('property', f'{label}: calls #{other + 1} and #{index + 1} returned the same object', {
+							'op': 'cosign_set', 'args': dict(args, group=label, index=index)})
+			if not detached and label.startswith('cosign_transaction:'):
+				# attached to the aggregate, the k cosignatures are k distinct entries at the end of its serialization
+				transaction.cosignatures = list(results)
+				expected = [bytes(8) + ref_public_key('symbol', secret) + ref_sign('symbol', secret, value) for secret, value in jobs]
+				serialized = transaction.serialize()
+				entries = [bytes(entry.serialize()) for entry in transaction.cosignatures]
+				if not serialized.endswith(b''.join(expected)) or entries != expected or len(set(entries)) != len(set(secrets[:len(entries)])):
+					self.ctx.fail('property', f'the aggregate with {len(jobs)} attached cosignatures does not end with one entry per cosigner', {
+						'op': 'cosign_set', 'args': dict(args, group='attached-to-aggregate', index=len(jobs)),
+						'implementation': hx(b''.join(entries)), 'required': hx(b''.join(expected))})
+				if self.reference_hash('symbol', seed, serialized) != own_hash:
+					self.ctx.notes.append('attaching cosignatures changed the reference hash of an aggregate')
+				transaction.cosignatures = []
+
 	def verify_history(self, network, public_key, pairs, expected):
 		"""One Verifier object judges the (message, signature) pairs in order; a refusal in between must not change later verdicts."""
 		import nacl.exceptions
@@ -1135,6 +1196,18 @@ def _history_round(checker, rng, network):
 				ctx.count(f'history:{network}:edited-field:{field}')
 		checker.settle()
 
+	# several cosignatures obtained before any of them is looked at
+	if 'nem' != network:
+		aggregate = next((pair for pair in transactions if 'Aggregate' in type(pair[1]).__name__), None)
+		if aggregate is None:
+			made = gen_symbol_transaction(rng, facade, key_pair, aggregate=True)[0]
+			aggregate = (made.serialize(), made)
+		count = rng.choice([1, 2, 3, 4])
+		cosigners = [secret] + [rng.bytes_(32) for _ in range(count - 1)]
+		checker.cosign_set(seed, aggregate[0], cosigners, [rng.bytes_(32) for _ in range(rng.choice([1, 2, 3]))])
+		ctx.count(f'history:symbol:cosignatures-kept:{count}-cosigners')
+		checker.settle()
+
 	# one Verifier object
 	public_key = ref_public_key(network, secret)
 	good_first, good_second = ref_sign(network, secret, first), ref_sign(network, secret, second)
@@ -1347,6 +1420,8 @@ def replay(ctx, payload):
 		factory = impl.facade(network, seed).transaction_factory
 		steps = [(kind, buffer, factory.deserialize(buffer)) for kind, buffer in zip(args['kinds'].split(','), args['transactions'])]
 		checker.transaction_history(network, seed, args['secret'], steps)
+	elif 'cosign_set' == name:
+		checker.cosign_set(args.get('seed'), args['transaction'], args['secrets'], args['hashes'])
 	elif 'mutate' == name:
 		edits = []
 		for part in [item for item in (args.get('edits') or '').split(';') if item]:
